@@ -71,6 +71,9 @@
 
 using namespace xalanc;
 
+// abandoned (possibly damaged) objects are leaked on purpose after a disagreement; leak checking is not part of this check
+extern "C" const char* __asan_default_options() { return "detect_leaks=0:abort_on_error=1"; }
+
 // =====================================================================================================================
 // basics
 
@@ -1917,10 +1920,10 @@ struct Search
 // registry, replay, main
 
 static const Container g_containers[] = {
-    { "map_int", 6, 8, &MapSys<IntCodec, 2, 2>::make, "XalanMap<int,int> x2, colliding hash (2 residues), loadFactor 0.75, minBuckets 2, eraseThreshold 2, 4 keys" },
-    { "map_int_b", 5, 7, &MapSys<IntCodec, 1, 3>::make, "XalanMap<int,int> x2, colliding hash, minBuckets 1, eraseThreshold 3, 4 keys" },
+    { "map_int", 6, 7, &MapSys<IntCodec, 2, 2>::make, "XalanMap<int,int> x2, colliding hash (2 residues), loadFactor 0.75, minBuckets 2, eraseThreshold 2, 4 keys" },
+    { "map_int_b", 5, 6, &MapSys<IntCodec, 1, 3>::make, "XalanMap<int,int> x2, colliding hash, minBuckets 1, eraseThreshold 3, 4 keys" },
     { "map_str", 5, 6, &MapSys<StrCodec, 2, 2>::make, "XalanMap<XalanDOMString,int> x2, minBuckets 2, eraseThreshold 2, keys '', 'a', 'b', 'ab'" },
-    { "vector", 5, 7, &VecSys::make, "XalanVector<Tracked> x2, values 0..2, positions begin/mid/end" },
+    { "vector", 5, 6, &VecSys::make, "XalanVector<Tracked> x2, values 0..2, positions begin/mid/end" },
     { "list", 7, 10, &ListSys::make, "XalanList<Tracked> x2, values 0..2, positions begin/mid/end" },
     { "deque", 7, 9, &DequeSys::make, "XalanDeque<Tracked> block size 2 (A empty, B built with initialSize 3)" },
     { "string", 5, 6, &StrSys::make, "XalanDOMString x2 against std::u16string, chars a, b, unpaired high surrogate; positions begin/mid/end; counts 0,1,2" },
